@@ -120,7 +120,8 @@ def build_replay(profiles=('dev',)):
 
 
 def tables_file(replay_bin):
-    key = hashlib.sha256(open(os.path.join(REPO, 'Cargo.lock'), 'rb').read()).hexdigest()[:16]
+    key = hashlib.sha256(open(os.path.join(REPO, 'Cargo.lock'), 'rb').read() +
+                         open(os.path.join(VERIF, 'replay', 'src', 'main.rs'), 'rb').read()).hexdigest()[:16]
     out = os.path.join(CACHE, 'tables-%s.json' % key)
     if not os.path.exists(out) or os.path.getsize(out) < 1000:
         p = subprocess.run([replay_bin, 'tables'], stdout=subprocess.PIPE, text=True, check=True)
